@@ -317,7 +317,7 @@ async def _scenario(loop, sc):
                         f.write(c)
             old_cwd = os.getcwd()
             os.chdir(os.path.join(ltmp, *[x for x in lcwd.split("/") if x]))
-            factory = aioftp.PathIO
+            factory = aioftp.AsyncPathIO if sc["lbackend"] == "async" else aioftp.PathIO
 
             def ldump():
                 return _disk_dump(ltmp)
@@ -705,6 +705,13 @@ def gen_scenarios(ctx, search=False):
                          {"op": "list", "path": "..", "recursive": True, "rcwd": "/w"}, {"op": "remove", "path": "../t2", "rcwd": "/w"},
                          {"op": "list", "path": "/", "recursive": True, "rcwd": "/w"}]
             scs.append(sc)
+            n += 1
+    # (8) every pairing of the shipped backends on either side, on trees with names that start with a dot (and other
+    #     names a file-name pattern treats specially): entries like any other, on any backend
+    dotted = ("D", {".hidden": ("F", b"h"), ".cfg": ("D", {"x": ("F", b"1"), ".deep": ("D", {})}), "plain": ("D", {".keep": ("F", b""), "[1]": ("F", b"b")}), "~t": ("D", {}), "*": ("F", b"s")})
+    for rb, lb in (("memory", "memory"), ("pathio", "pathio"), ("async", "memory"), ("memory", "async"), ("async", "async"), ("pathio", "async")):
+        for m in (True, False):
+            scs.append(make_scenario(dotted, dotted, "d", True, "/", m, BLOCKS[n % 3], "", False, variant=n - n % 10, rbackend=rb, lbackend=lb))
             n += 1
     # destination collisions that must merge / not collide: dest 'd' while the source contains 'd', etc. are in FIXED
     if not search:
